@@ -361,6 +361,7 @@ def finish_c10(ctx, res, cf):
     # ---- shared obligations: a filter alternative that cannot be compared is contained where it arises; what lookup lists is fetchable
     from . import common as _ci
     _ci.import_clauses(ctx, res, 'C14', ['C14.a', 'C14.b'], 'C10', 'C10.h', 'R-TOTAL', 'the shared matcher answers for every alternative on its own and by the documented rule (no comparison failure escapes an alternative)', floor=4)
+    _ci.complete_listing_clause(ctx, res, 'C10', 'C10.j', floor=2)
     _ci.import_clauses(ctx, res, 'C15', ['C15.e'], 'C10', 'C10.i', 'R-ORDER', 'S3: the object a lookup lists is written only together with (after) the fetchable object', floor=2)
     # ---- C10.f lookups read the store on every call: no per-object memory in the reading methods
     from . import common
